@@ -29,15 +29,16 @@ const char *xv_g_str;                   /* see env/cert_env.h XC_REBASE */
 /* ---- certificate model */
 _Bool xv_subj_null; long xv_subj_calls;
 long xv_nm_calls, xv_nm_fills; const X509_NAME *xv_nm_name, *xv_nm_fill_name; char *xv_nm_buf; int xv_nm_fill_len;
-_Bool xv_cn_present; int xv_cn_len; uint8_t xv_cn_byte;
+_Bool xv_cn_present; int xv_cn_len; char xv_cn_byte;
 long xv_d2i_calls, xv_gn_live, xv_gn_free_calls; _Bool xv_gn_absent; int xv_gn_num, xv_gn_next, xv_gn_want;
-long xv_gn_match; size_t xv_want_ord;
+size_t xv_gn_match, xv_want_ord;
 GENERAL_NAME xv_gn_ent;
-const void *xv_gn_cur_payload, *xv_gn_k_payload; int xv_gn_k_len; char xv_gn_k_byte, xv_gn_cur_byte; _Bool xv_gn_cur_match;
+const void *xv_gn_cur_payload, *xv_gn_k_payload; size_t xv_gn_k_len; char xv_gn_k_byte, xv_gn_cur_byte; _Bool xv_gn_cur_match;
+char *xv_asn1_buf, *xv_id_base; int xv_asn1_cap; char *xv_dup_fix;
 const ASN1_STRING *xv_asn1_str; char *xv_asn1_data; int xv_asn1_len, xv_asn1_z; _Bool xv_asn1_nt;
 _Bool xv_ski_present; int xv_ski_len; uint8_t xv_ski_byte; long xv_ski_calls, xv_ski_data_calls;
-long xv_cb_calls;
-char xv_ex_str[3][3]; _Bool xv_ex_match[3];     /* XV_STR_EXACT: the first three entries' names (as C strings) and whether they match */
+size_t xv_cb_calls;
+char xv_ex_str[3][3]; _Bool xv_ex_match[3]; char xv_ex_cn[3];     /* XV_STR_EXACT: the first three entries' names (as C strings) and whether they match */
 
 #ifdef XV_CBMC
 void *nondet_voidp(void);
@@ -51,15 +52,25 @@ static inline void xc_ghost_havoc(void)
     xv_l1 = nondet_size_t(); xv_l2 = nondet_size_t(); xv_l3 = nondet_size_t(); xv_g_elem = nondet_voidp(); xv_g_p1 = nondet_voidp(); xv_g_str = NULL;
     xv_subj_null = nondet_bool(); xv_subj_calls = nondet_long();
     xv_nm_calls = nondet_long(); xv_nm_fills = nondet_long(); xv_nm_name = nondet_voidp(); xv_nm_fill_name = nondet_voidp(); xv_nm_buf = nondet_voidp(); xv_nm_fill_len = nondet_int();
-    xv_cn_present = nondet_bool(); xv_cn_len = nondet_int(); xv_cn_byte = nondet_uchar();
+    xv_cn_present = nondet_bool(); xv_cn_len = nondet_int(); xv_cn_byte = nondet_char();
     xv_d2i_calls = nondet_long(); xv_gn_live = nondet_long(); xv_gn_free_calls = nondet_long(); xv_gn_absent = nondet_bool();
-    xv_gn_num = nondet_int(); xv_gn_next = nondet_int(); xv_gn_want = nondet_int(); xv_gn_match = nondet_long(); xv_want_ord = nondet_size_t();
-    xv_gn_cur_payload = NULL; xv_gn_k_payload = nondet_voidp(); xv_gn_k_len = nondet_int(); xv_gn_k_byte = nondet_char(); xv_gn_cur_byte = nondet_char(); xv_gn_cur_match = 0;
+    xv_gn_num = nondet_int(); xv_gn_next = nondet_int(); xv_gn_want = nondet_int(); xv_gn_match = nondet_size_t(); xv_want_ord = nondet_size_t();
+    xv_gn_cur_payload = NULL; xv_gn_k_payload = nondet_voidp(); xv_gn_k_len = nondet_size_t(); xv_gn_k_byte = nondet_char(); xv_gn_cur_byte = nondet_char(); xv_gn_cur_match = 0;
     /* no entry has been handed out yet */
-    xv_asn1_str = NULL; xv_asn1_data = NULL; xv_asn1_len = 0; xv_asn1_z = 0;
+    xv_asn1_str = NULL; xv_asn1_data = NULL; xv_asn1_len = 0; xv_asn1_z = 0; xv_id_base = NULL; xv_dup_fix = nondet_voidp();
+    /* the buffer ASN.1 string data is handed out in (env/cert_env.h X509_get_ext_d2i): made here, because a loop contract's assigns
+     * clause must name it as a valid object whether or not the certificate has a subjectAltName */
+#ifdef XV_STR_EXACT
+    xv_asn1_cap = 3;            /* bounded stand-ins: names of 0..2 bytes (+ NUL) */
+#else
+    xv_asn1_cap = nondet_int();
+    __CPROVER_assume(xv_asn1_cap >= 1 && xv_asn1_cap <= XV_ASN1_MAX + 1);
+#endif
+    xv_asn1_buf = malloc((size_t)xv_asn1_cap);
+    __CPROVER_assume(xv_asn1_buf != NULL);
     xv_asn1_nt = nondet_bool();
     xv_ski_present = nondet_bool(); xv_ski_len = nondet_int(); xv_ski_byte = nondet_uchar(); xv_ski_calls = nondet_long(); xv_ski_data_calls = nondet_long();
-    xv_cb_calls = nondet_long();
+    xv_cb_calls = nondet_size_t();
 }
 #endif
 
@@ -69,25 +80,33 @@ static inline void xc_ghost_havoc(void)
 struct xv_idx_param { size_t current_index; size_t target_index; char *p; };
 #define XC_P ((struct xv_idx_param *)cb_data)
 #define XC_FS_LOOP_ASSIGNS i, xv_gn_next, xv_gn_match, xv_gn_ent, xv_gn_cur_payload, xv_gn_k_payload, xv_gn_k_len, xv_gn_k_byte, xv_gn_cur_byte, xv_gn_cur_match, \
-    xv_asn1_str, xv_asn1_data, xv_asn1_len, xv_asn1_z, xv_cb_calls, __CPROVER_object_whole(cb_data), xv_heap_live, \
-    xv_dup_calls, xv_dup_ret, xv_dup_len, xv_dup_byte, xv_nm_calls, xv_nm_name, xv_nm_fills, xv_nm_fill_name, xv_nm_buf, xv_nm_fill_len
-#define XC_FS_INV_IDX (i >= 0 && xv_gn_next == i && (exts != NULL ==> i <= xv_gn_num) && (exts == NULL ==> i == 0) && xv_gn_match >= 0 && xv_gn_match <= i)
+    xv_asn1_str, xv_asn1_data, xv_asn1_len, xv_asn1_z, __CPROVER_object_whole(xv_asn1_buf), XC_FS_LOOP_ASSIGNS_JOB
+#if defined(XC_JOB_COUNT)
+#define XC_FS_LOOP_ASSIGNS_JOB __CPROVER_object_whole(cb_data)
+#elif defined(XC_JOB_SAN)
+#define XC_FS_LOOP_ASSIGNS_JOB __CPROVER_object_whole(cb_data), xv_heap_live, xv_dup_calls, xv_dup_len, xv_dup_byte
+#elif defined(XC_JOB_DIR)
+#define XC_FS_LOOP_ASSIGNS_JOB __CPROVER_object_whole(cb_data), xv_heap_live, xv_nm_calls, xv_nm_name, xv_nm_fills, xv_nm_fill_name, xv_nm_buf, xv_nm_fill_len
+#else
+#define XC_FS_LOOP_ASSIGNS_JOB xv_cb_calls
+#endif
+#define XC_FS_INV_IDX (i >= 0 && xv_gn_next == i && (exts != NULL ==> i <= xv_gn_num) && (exts == NULL ==> i == 0) && xv_gn_match <= (size_t)i)
 #if defined(XC_JOB_COUNT)
 /* cert_count_san: the counter the callback increments equals the number of matching entries handed out so far */
-#define XC_FS_INV_JOB (*(size_t *)cb_data == (size_t)xv_gn_match)
+#define XC_FS_INV_JOB (*(size_t *)cb_data == xv_gn_match)
 #elif defined(XC_JOB_SAN)
 /* cert_get_san: nothing is duplicated before match number xv_want_ord, exactly that one is, once */
-#define XC_FS_INV_JOB (XC_P->current_index == (size_t)xv_gn_match && XC_P->target_index == xv_want_ord && \
-    ((size_t)xv_gn_match <= xv_want_ord ==> (XC_P->p == NULL && xv_dup_calls == 0 && xv_heap_live == xv_heap0)) && \
-    ((size_t)xv_gn_match > xv_want_ord ==> (XC_P->p == xv_dup_ret && xv_dup_calls == 1 && xv_heap_live == xv_heap0 + 1 && \
-                                             xv_dup_len == (size_t)xv_gn_k_len && xv_dup_byte == xv_gn_k_byte)))
+#define XC_FS_INV_JOB (XC_P->current_index == xv_gn_match && XC_P->target_index == xv_want_ord && \
+    (xv_gn_match <= xv_want_ord ==> (XC_P->p == NULL && xv_dup_calls == 0 && xv_heap_live == xv_heap0)) && \
+    (xv_gn_match > xv_want_ord ==> (XC_P->p == xv_dup_fix && xv_dup_calls == 1 && xv_heap_live == xv_heap0 + 1 && \
+                                             xv_dup_len == xv_gn_k_len && xv_dup_byte == xv_gn_k_byte)))
 #elif defined(XC_JOB_DIR)
 /* cert_get_dir_cn: get_cn() runs once, on the directory name of match number xv_want_ord */
-#define XC_FS_INV_JOB (XC_P->current_index == (size_t)xv_gn_match && XC_P->target_index == xv_want_ord && \
-    ((size_t)xv_gn_match <= xv_want_ord ==> (XC_P->p == NULL && xv_nm_calls == 0 && xv_nm_fills == 0 && xv_heap_live == xv_heap0)) && \
-    (((size_t)xv_gn_match > xv_want_ord && xv_cn_present) ==> (xv_nm_calls == 2 && xv_nm_fills == 1 && xv_nm_name == xv_gn_k_payload && xv_nm_fill_name == xv_gn_k_payload && \
-                                             XC_P->p == xv_nm_buf && xv_nm_fill_len == xv_cn_len + 1 && xv_heap_live == xv_heap0 + 1)) && \
-    (((size_t)xv_gn_match > xv_want_ord && !xv_cn_present) ==> (xv_nm_calls == 1 && xv_nm_fills == 0 && xv_nm_name == xv_gn_k_payload && XC_P->p == NULL && xv_heap_live == xv_heap0)))
+#define XC_FS_INV_JOB (XC_P->current_index == xv_gn_match && XC_P->target_index == xv_want_ord && \
+    (xv_gn_match <= xv_want_ord ==> (XC_P->p == NULL && xv_nm_calls == 0 && xv_nm_fills == 0 && xv_heap_live == xv_heap0)) && \
+    ((xv_gn_match > xv_want_ord && xv_cn_present) ==> (xv_nm_calls == 2 && xv_nm_fills == 1 && xv_nm_name == xv_gn_k_payload && xv_nm_fill_name == xv_gn_k_payload && \
+                                             XC_P->p == xv_nm_buf && xv_nm_buf != NULL && xv_nm_fill_len == xv_cn_len + 1 && xv_heap_live == xv_heap0 + 1)) && \
+    ((xv_gn_match > xv_want_ord && !xv_cn_present) ==> (xv_nm_calls == 1 && xv_nm_fills == 0 && xv_nm_name == xv_gn_k_payload && XC_P->p == NULL && xv_heap_live == xv_heap0)))
 #else
 /* foreach_san with the recording callback: one visit per matching entry */
 #define XC_FS_INV_JOB (xv_cb_calls == xv_gn_match)
